@@ -693,6 +693,34 @@ def t1_wiring(ctx: Ctx):
                         forwarded.add((a[0], c, attr))
                         _lister_forwards(ctx, a[0], c, lst)
                     if lst is not None:
+                        # ... and with *all* of them: every keyword the strategy takes can be handed to the public listing.
+                        # What the public function passes on (everything, or what its filter lets through -- evaluated from
+                        # the filter's source with the two parameter lists read off the definitions) is accepted by the lister
+                        # and includes every parameter the two share.
+                        sparams = [p.arg for p in fn.args.args + fn.args.kwonlyargs if p.arg not in ('func', 'where')]
+                        lparams = [p.arg for p in lst.args.args + lst.args.kwonlyargs]
+                        pub = ctx.fn(SITES, attr)
+                        pret = [s for s in walk_no_nested(pub) if isinstance(s, ast.Return) and isinstance(s.value, ast.Call) and dotted(s.value.func) == 'lister']
+                        star = [kw.value for r_ in pret for kw in r_.value.keywords if kw.arg is None]
+                        passed: set[str] | None = None
+                        if len(star) == 1 and norm(star[0]) == 'kwargs':
+                            passed = set(sparams) | {'zzz'}
+                        elif len(star) == 1 and isinstance(star[0], ast.Call) and repo.has_func(SITES, call_name(star[0]) or '') and [norm(a) for a in star[0].args] == ['strategy', 'lister', 'kwargs']:
+                            from ..minipy import Interp, Obj
+                            S_, L_ = Obj('strategy'), Obj('lister')
+                            sig = {id(S_): ['func', 'where'] + sparams, id(L_): lparams}
+                            it = Interp({n: f_ for n, f_ in repo.functions(SITES) if '.' not in n},
+                                        overrides={'inspect.signature': lambda f_: Obj('Signature', parameters={k_: None for k_ in sig[id(f_)]})})
+                            out = it.call_function(repo.func(SITES, call_name(star[0])), [S_, L_, {k_: 1 for k_ in sparams + ['zzz']}])
+                            passed = set(out)
+                        if passed is None:
+                            raise ShapeError(f'{attr}(): what is passed on to the lister is not recognised')
+                        refused = sorted(p for p in passed if p not in lparams and p != 'zzz') if lst.args.kwarg is None else []
+                        dropped = sorted(p for p in sparams if p in lparams and p not in passed)
+                        ctx.check(not refused and not dropped and 'zzz' in passed, SITES, val, table, f'{attr}({strat}, f, ...) takes every parameter of `{strat}` ({", ".join(sparams) or "none"})',
+                                  (f'{norm(val)} is handed {refused}, which it does not take: TypeError instead of a listing (`sites(unroll_while, f, times=2)`)' if refused else
+                                   f'{dropped} decide the listing and are not passed on' if dropped else 'a keyword neither of them knows is swallowed'))
+
                         def kinds(ann) -> set[str]:
                             return {n.id for n in ast.walk(ann) if isinstance(n, ast.Name)} - {'None'} if ann is not None else set()
                         sp = {p.arg: p.annotation for p in fn.args.args + fn.args.kwonlyargs}
@@ -748,8 +776,9 @@ def t1_wiring(ctx: Ctx):
         f = ctx.fn(SITES, name)
         rets = [s for s in walk_no_nested(f) if isinstance(s, ast.Return) and isinstance(s.value, ast.Call) and dotted(s.value.func) == 'lister']
         good = len(rets) == 1 and [norm(a) for a in rets[0].value.args] in (['func.ast', 'func.rebase(within)'], ['func.ast', 'within']) \
-            and any(kw.arg is None and norm(kw.value) == 'kwargs' for kw in rets[0].value.keywords)
-        ctx.check(good, SITES, f, name, f'{name}() calls the lister on (func.ast, <within>, **kwargs)',
+            and any(kw.arg is None and (norm(kw.value) == 'kwargs' or (isinstance(kw.value, ast.Call) and [norm(a) for a in kw.value.args] == ['strategy', 'lister', 'kwargs']))
+                    for kw in rets[0].value.keywords)
+        ctx.check(good, SITES, f, name, f'{name}() calls the lister on (func.ast, <within>, **kwargs) -- the keywords as given, or through the filter decided above',
                   'the listing is not taken on this program with the arguments that decide its sites')
         gets = [k for k in calls_in(f) if call_name(k) == f'{table}.get' and [norm(a) for a in k.args] == ['strategy']]
         ctx.check(len(gets) == 1, SITES, f, name, f'{name}() looks `strategy` up in {table}', 'the lister is not the one registered for the strategy')
@@ -1593,6 +1622,7 @@ RULES = [
     Rule('C19.T1', '_SITES / _REFUSALS name the transform each strategy runs', t1_wiring, 60, 'T'),
     Rule('C19.T2', 'forwarding, check_site, check_where and selection decide every ordering as documented', t2_forwarding, 49, 'T'),
     Rule('C19.P5', 'edits are accounted per statement; prelude passes report what they prepend; predicate listings agree with the walk', p5_edit_accounting, 15, 'P'),
+    Rule('C19.G1', 'listing the sites of a rounding pass answers for an operation recorded under no scope (= C10.G2)', lambda ctx: __import__('sa.props.c10', fromlist=['g2_scopeless_operations']).g2_scopeless_operations(ctx), 8, 'G'),
     Rule('C19.P4', 'aimed apply_with_edits: check_where before, check_site after, own edits reported; one rewriter for listing and rewriting', p4_bracket, 80, 'P'),
 ]
 
@@ -1602,6 +1632,12 @@ T = 'fpy2/transform/'
 FU, SL, WU, RI, FI = T + 'for_unroll.py', T + 'split_loop.py', T + 'while_unroll.py', T + 'round_insert.py', T + 'func_inline.py'
 
 MUTANTS = [
+    Mutant('listing-handed-every-keyword-of-the-strategy', SITES, "    return lister(func.ast, func.rebase(within), **_listing_kwargs(strategy, lister, kwargs))\n\n\ndef refusals(", "    return lister(func.ast, func.rebase(within), **kwargs)\n\n\ndef refusals(", 'C19.T1',
+           'finding F126 before its repair: sites(unroll_while, f, times=2) raises TypeError'),
+    Mutant('listing-filter-drops-what-the-lister-takes', SITES, "    return { k: v for k, v in kwargs.items() if k in taken or k not in own }", "    return { k: v for k, v in kwargs.items() if k not in own }", 'C19.T1',
+           'ctx, factor, strategy decide the listing'),
+    Mutant('listing-filter-swallows-unknown-keywords', SITES, "    return { k: v for k, v in kwargs.items() if k in taken or k not in own }", "    return { k: v for k, v in kwargs.items() if k in taken }", 'C19.T1',
+           'a misspelt keyword is silently ignored'),
     Mutant('leaf-function-returned-before-the-aim-is-checked', FI, "        cg = CallGraph.analyze(func)\n\n        if funcs is not None:", "        cg = CallGraph.analyze(func)\n        if not cg.call_sites[func]:\n            return EditLog(func, func, (), exprs_preserved=True)\n\n        if funcs is not None:", 'C19.P4',
            'seeded change C19e: inline(leaf, 3) returns the program unchanged instead of raising'),
     Mutant('zero-unroll-count-skips-the-listing', FU, "        if not aimed:\n            return super()._visit_for(stmt, ctx)\n        if self.listing:", "        if not (aimed and self.times > 0):\n            return super()._visit_for(stmt, ctx)\n        if self.listing:", 'C19.P2',
@@ -1659,7 +1695,7 @@ MUTANTS = [
     Mutant('sites-of-another-transform', 'fpy2/strategies/sites.py', "    unroll_for: ForUnroll.sites,", "    unroll_for: SplitLoop.sites,", 'C19.T1'),
     Mutant('refusals-unexplained', 'fpy2/strategies/sites.py', "    unroll_for: ForUnroll.refusals,\n", "", 'C19.T1'),
     Mutant('strategy-unlisted', 'fpy2/strategies/sites.py', "    unroll_while: WhileUnroll.sites,\n", "", 'C19.T1'),
-    Mutant('lister-kwargs-dropped', 'fpy2/strategies/sites.py', "    return lister(func.ast, func.rebase(within), **kwargs)\n\n\ndef refusals", "    return lister(func.ast, func.rebase(within))\n\n\ndef refusals", 'C19.T1',
+    Mutant('lister-kwargs-dropped', 'fpy2/strategies/sites.py', "    return lister(func.ast, func.rebase(within), **_listing_kwargs(strategy, lister, kwargs))\n\n\ndef refusals", "    return lister(func.ast, func.rebase(within))\n\n\ndef refusals", 'C19.T1',
            'insert_round / unroll_for / split decide their sites from these arguments'),
     # P4
     Mutant('check-site-dropped', T + 'unfold_special.py', "        vtor.check_site('a candidate rounding block')\n", "", 'C19.P4'),
